@@ -381,6 +381,7 @@ func checkC06(c *Ctx) {
 	validateTraces(c, "CloneTrace", cloneTraceCfg, its, 60, false, func(it traceItem, res *TLCResult) {
 		c.Fail(Finding{Sig: "clone-" + res.Violated, Input: it.Key, What: fmt.Sprintf("law %s of CloneTrace.tla fails on %s: %s", res.Violated, it.Key, truncate(c06Explain(it, res), 700)), Replay: it.Replay})
 	})
+	c06CrossFile(c)
 	c.Set("rule", "case = Clone of one template fragment (as parsed, and with every decoration point filled) or corpus file: heap export before/after, address disjointness, mutation of either side, print comparison; or a node shared at two positions (list elements, and any two positions holding the same node type, with the plain and the import-managing restorer, identifiers with a package path included) vs its clone; all cases non-trivial; distinct by fragment + variant")
 }
 
@@ -713,6 +714,56 @@ func c06Flags(c *Ctx, key string, build func() *dst.File) {
 		}
 		if d := scalarDiff(f, cl, ""); d != "" {
 			c.Fail(Finding{Sig: "clone-drops-field", Input: key + "|" + d, What: fmt.Sprintf("%s (%d flags set by the harness): %s", key, n, d), Replay: obj{"kind": "none"}})
+		}
+	}
+}
+
+// c06CrossFile: the files of a package are restored by one Restorer (as Package.Save does). A node that
+// occurs in two of them is one node at two places of the package: the second file is rejected with a
+// panic; with a clone both files print.
+func c06CrossFile(c *Ctx) {
+	srcA := "package p\n\n// Helper is shared.\nfunc Helper() int { return 1 }\n\nvar A = Helper()\n"
+	srcB := "package p\n\nvar B = 2\n"
+	for _, useClone := range []bool{false, true} {
+		for _, deep := range []bool{false, true} {
+			fa, err1 := decorator.Parse(srcA)
+			fb, err2 := decorator.Parse(srcB)
+			if err1 != nil || err2 != nil {
+				c.Infra("cross-file sources do not parse")
+				return
+			}
+			key := fmt.Sprintf("cross-file|clone=%v|deep=%v", useClone, deep)
+			c.Eval(key, true)
+			if deep {
+				// a statement of a function body of the first file inside a new function of the second
+				shared := fa.Decls[0].(*dst.FuncDecl).Body.List[0]
+				var st dst.Stmt = shared
+				if useClone {
+					st = dst.Clone(shared).(dst.Stmt)
+				}
+				fb.Decls = append(fb.Decls, &dst.FuncDecl{Name: dst.NewIdent("Other"), Type: &dst.FuncType{Params: &dst.FieldList{}, Results: &dst.FieldList{List: []*dst.Field{{Type: dst.NewIdent("int")}}}}, Body: &dst.BlockStmt{List: []dst.Stmt{st}}})
+			} else {
+				var d dst.Decl = fa.Decls[0]
+				if useClone {
+					d = dst.Clone(fa.Decls[0]).(dst.Decl)
+					d.(*dst.FuncDecl).Name.Name = "Helper2"
+				}
+				fb.Decls = append(fb.Decls, d)
+			}
+			r := decorator.NewRestorer()
+			var bufA, bufB bytes.Buffer
+			if msg := guard(func() { r.Fprint(&bufA, fa) }); msg != "" {
+				c.Fail(Finding{Sig: "cross-file-first-restore-fails", Input: key, What: msg, Replay: obj{"kind": "none"}})
+				continue
+			}
+			var perr error
+			msg := guard(func() { perr = r.Fprint(&bufB, fb) })
+			switch {
+			case useClone && (msg != "" || perr != nil):
+				c.Fail(Finding{Sig: "cross-file-clone-rejected", Input: key, What: fmt.Sprintf("a clone placed in a second file of the package is not printed: %s %v", msg, perr), Replay: obj{"kind": "none"}})
+			case !useClone && msg == "":
+				c.Fail(Finding{Sig: "cross-file-duplicate-printed", Input: key, What: "a node of the first file placed in a second file of the package (same Restorer) is printed instead of being rejected:\n" + bufB.String(), Replay: obj{"kind": "none"}})
+			}
 		}
 	}
 }
